@@ -33,3 +33,23 @@ Proof.
   destruct (forallb _ args); [|discriminate].
   intro H. apply v_dynamic_zero_sound in H. exact H.
 Qed.
+
+Lemma v_dynamic_alias_zero b rs obs args : v_dynamic_alias b rs obs args = 0 -> v_dynamic63 b args = 0.
+Proof.
+  unfold v_dynamic_alias. destruct (b && negb _); [|tauto].
+  destruct (Z.odd (v_dynamic63 b args)) eqn:E; [tauto|]. intro H.
+  assert (0 <= v_dynamic63 b args).
+  { unfold v_dynamic63. destruct (forallb _ args); [|lia]. rewrite v_dynamic_values.
+    destruct (unchanged_check _); [lia|]. destruct b; lia. }
+  lia.
+Qed.
+
+(* verdict 0 of a full case: no refused write into a read-only argument, and every observed argument unchanged *)
+Lemma v_case_zero_sound ro b rs obs args :
+  v_case ro b rs obs args = 0 ->
+  ro = false /\ all_unchanged (map (fun p => (dec63 (fst p), dec63 (snd p))) args).
+Proof.
+  unfold v_case. destruct ro.
+  - destruct b; discriminate.
+  - intro H. split; [reflexivity|]. apply v_dynamic_alias_zero in H. apply v_dynamic63_zero_sound in H. exact H.
+Qed.
